@@ -296,6 +296,12 @@ def run(c):
                    dict(id=2, kind='line', file='a', line='f_plain', span='none', reg=True),
                    dict(id=3, kind='line', file='a', line='g_first', span='none', reg=True)],
                   [[('a.f', [('line',), ('cfg', 255), ('line',), ('cfg', 1), ('call', 'a.g', []), ('cfg', 0), ('line',)])]]),
+                 # a method tracepoint without a method name (it never acts) in files whose source cannot be loaded: whatever
+                 # its own location test does with that, the other tracepoints of the file act as ever
+                 ([dict(id=1, kind='method', file='a', name='', line=0, span='method', hide_source=True),
+                   dict(id=2, kind='line', file='a', line='f_plain', span='none'),
+                   dict(id=3, kind='method', file='a', name='g', line=0, span='none')],
+                  [[('a.f', [('line',), ('call', 'a.g', [('line',)]), ('line',)])]]),
                  # the configuration is withdrawn, a function is entered while NOTHING is installed, and the configuration
                  # comes back while that invocation is still running: its later lines are configured locations
                  ([dict(id=1, kind='line', file='a', line='f_plain', span='none')],
